@@ -2,6 +2,7 @@ package main
 
 import (
 	"fmt"
+	"strings"
 
 	"golang.org/x/tools/go/ssa"
 )
@@ -47,7 +48,7 @@ var predicateMachinery = []string{
 
 func init() {
 	register(&propDef{
-		ID: "C01",
+		ID:          "C01",
 		Explanation: "Decides two structural necessary conditions of the path law over ALL programs and inputs: (SEQ) no evaluator-internal *sequence is ever stored inside a value, handed to a callable/reflect mutator, or returned by eval/Eval/a built-in — a symbolic may-wrap-a-sequence dataflow over every reflect.Value/interface SSA value of the module with the asSequence refinement; (NF) every kind-specific reflect accessor (Len/Index/MapKeys/MapIndex/Field...) in the path machinery is applied to a provably resolved value (jtypes.Resolve / arrayify / MakeSlice results, interprocedural). Breaking either makes a path over arrays nested in arrays return an internal object or panic. NOT decided: order, one-level flattening, singleton collapse, keep-array marker as values.",
 		Rule:        commonRule,
 		Fixtures:    []string{"seq", "nf"},
@@ -61,7 +62,7 @@ func init() {
 		},
 	})
 	register(&propDef{
-		ID: "C02",
+		ID:          "C02",
 		Explanation: "Decides the NF discipline in the predicate machinery (evalPredicate, applyFilter, arrayify, normalizeArray and the evalPath->evalPathStep->evalOverArray chain a filter path enters with an array item): every reflect accessor receiver is provably resolved on every path, interprocedurally. This is the clause behind the two panics the property names (x[$$.idx], arr[o] on [[1]]). NOT decided: floor/negative index arithmetic, boolean casting, number-array detection, step-local vs whole-path attachment (value-level).",
 		Rule:        commonRule,
 		Fixtures:    []string{"nf"},
@@ -71,7 +72,7 @@ func init() {
 		},
 	})
 	register(&propDef{
-		ID: "C03",
+		ID:          "C03",
 		Explanation: "Decides four structural clauses of the operator table: (FIN) every float produced by evalNumericOperator/evalNegation/evalRange passes two-sided math.IsInf and math.IsNaN tests whose true edges leave by an error return before it is boxed into a value (bit-set dataflow {Inf,NaN} with dominance-based guards); (GUARD) evalRange's size test 0<=size<=10,000,000 dominates the allocation and the constant is the property's; (LAZY) in evalConditional Then/Else are evaluated only on the true/false edge of jlib.Boolean(cond) and no path runs both; (TAB) every switch over NumericOperator/ComparisonOperator/BooleanOperator in the evaluator covers all declared constants, and each parser led is registered for exactly the tokens its switch handles, so no 'unrecognised operator' panic is reachable. NOT decided: the operator x kind x kind value/error table.",
 		Rule:        commonRule,
 		Fixtures:    []string{"fin", "guard", "tab"},
@@ -89,7 +90,7 @@ func init() {
 		},
 	})
 	register(&propDef{
-		ID: "C04",
+		ID:          "C04",
 		Explanation: "Extracts the complete parameter set of the Pratt parser from the current source — lexeme->token tables (symbols1, symbols2, lookupKeyword), the binding-power rows and the formula initBindingPowers applies to them, lookupBp, the single binding of the parser's lookup fields, the loop test of parseExpression, each led's recursive right-binding power, the nud/led tables, the lexeme->token->operator-constant->String() chain, and the allowRegex flag of every token consumption that is followed by an operand or by a return to the Pratt loop — and compares it with the precedence relation written in the property (10 rows, all left-associative except := and the greedy else branch). For the token set of the language these parameters determine the parse of every operator chain, so a one-row move, a flipped associativity, a <= in the loop, a swapped operator constant or a wrong regex flag is caught for all ordered pairs, not the sampled ones. NOT decided: the path/predicate/group re-association done by optimize.",
 		Rule:        commonRule,
 		Fixtures:    []string{"tab"},
@@ -99,7 +100,7 @@ func init() {
 		},
 	})
 	register(&propDef{
-		ID: "C10",
+		ID:          "C10",
 		Explanation: "Decides: (SEQ) no *sequence escapes (see C01); (FIN) every float result of every function bound in the base environment (and their callees) and every float boxed into a value under Eval is finite or guarded by two-sided IsInf/IsNaN tests; (MARSHAL) every type implementing jtypes.Callable marshals as the constant \"\" through callableMarshaler, every built-in's first result type is JSON-closed, jsonata.ErrUndefined is referenced only by Expr.Eval and returned exactly on the !IsValid edge, and EvalBytes is json.Unmarshal(error checked) -> Eval(on the decoded value, error checked) -> json.Marshal(of Eval's result). NOT decided: that every nested value of every result is JSON-representable.",
 		Rule:        commonRule,
 		Fixtures:    []string{"seq", "fin", "marshal"},
@@ -115,7 +116,7 @@ func init() {
 		},
 	})
 	register(&propDef{
-		ID: "C11",
+		ID:          "C11",
 		Explanation: "Thin but genuine necessary conditions, decided by table comparison: jparse.jsonEscapes equals RFC 8259 section 7's two-character escape table exactly (no missing, changed or extra letter); true/false/null are lexed as boolean/boolean/null and parseBoolean maps each word to its own value; evalArray has an *ArrayNode case that appends a nested array literal as a unit without iterating over it. NOT decided: \\u decoding, surrogate pairing, number scanning and range errors.",
 		Rule:        commonRule,
 		Fixtures:    []string{"tab"},
@@ -125,7 +126,7 @@ func init() {
 		},
 	})
 	register(&propDef{
-		ID: "C13",
+		ID:          "C13",
 		Explanation: "Decides: every sort call reachable from Eval is a stable variant (sort.SliceStable/sort.Stable); every comparator handed to them returns only constants, strict < / > tests, or calls that return only those (no <=, >=, ==, negation, lte) — a non-strict less function breaks stability for ties; the slice sorted in place is allocated by the same evaluation; jlib.merge calls the user comparator as swap(left head, right head) and takes the left head on a false result, so the hand-written merge sort is stable. Go's unstable sort is an insertion sort below 12 items, so none of this is visible to the suite. NOT decided: permutation/order/error clauses as values, key typing, direction per term.",
 		Rule:        commonRule,
 		Fixtures:    []string{"sort"},
@@ -135,7 +136,7 @@ func init() {
 		},
 	})
 	register(&propDef{
-		ID: "C15",
+		ID:          "C15",
 		Explanation: "Thin: decides that no function under $distinct (and nothing else under Eval) uses a map with interface keys indexed by a dynamically typed value (panics on arrays/objects/functions) or an fmt.Sprint rendering as the identity of a value (conflates {\"a\":1} and {\"a\":\"1\"}); and FIN for the aggregate functions $sum/$max/$min/$average (no unguarded overflow). NOT decided: every other definitional clause (visit order, fold direction, permutation), which are value-level.",
 		Rule:        commonRule,
 		Fixtures:    []string{"hash", "fin"},
@@ -162,7 +163,7 @@ func init() {
 		},
 	})
 	register(&propDef{
-		ID: "C16",
+		ID:          "C16",
 		Explanation: "Decides: (UNIT) in Substring, Pad, positionOfNthRune and abs every integer addition, comparison, string-slice bound and positionOfNthRune argument keeps code-point counts (utf8.RuneCountInString, the built-ins' integer parameters) apart from byte offsets (len(string), strings.Index*, range keys, decode widths) — a len(s) where a rune count is meant passes every ASCII sample; (CODEC) $base64encode/$base64decode reference the same base64 encoding variable, $encodeUrlComponent/$decodeUrlComponent use a matching escape/unescape pair of net/url, and $length is bound to utf8.RuneCountInString. NOT decided: the laws as string equalities; $split/$join/$replace/$trim.",
 		Rule:        commonRule,
 		Fixtures:    []string{"unit"},
@@ -172,7 +173,7 @@ func init() {
 		},
 	})
 	register(&propDef{
-		ID: "C19",
+		ID:          "C19",
 		Explanation: "Decides: (TAB) expandDateComponent's switch and defaultDateFormats cover all 17 declared date components; (CLOCK) the only clock read under Eval is time.Now in Expr.newEnv, called once per Eval outside loops, and $now and $millis embed conversions of one and the same SSA value; (GUARD-API) no nanoseconds-since-epoch API (UnixNano: defined only 1678..2262) is reachable from $toMillis; (GUARD) every integer division/modulo under $fromMillis has a dominating non-zero test of its divisor. NOT decided: calendar field values (the 12-hour clock showing 0 for the midnight hour is real and value-level), the inverse law.",
 		Rule:        commonRule,
 		Fixtures:    []string{"guard", "tab"},
@@ -237,7 +238,7 @@ func runPanics(c *Ctx, r *Result, rule string, reach *Reach, tabProved map[strin
 
 func init() {
 	register(&propDef{
-		ID: "C09",
+		ID:          "C09",
 		Explanation: "Decides the crash/hang classes that are visible in the shape of the code, over everything reachable from Eval in the module call graph: (NF) every kind-specific reflect accessor gets a provably resolved receiver (138 sites, interprocedural); (TAB) eval's type switch covers every node type the parser can emit and every operator-enum switch is exhaustive, so the 'unexpected node'/'unrecognised operator' panics are unreachable; (PANIC) every explicit panic under Eval is one of those or a listed exception; (LOOP) every loop under Eval has a recognised variant (range, counted towards an invariant bound, shrinking-suffix consumer, positive multiplicative scaling, or a reviewed entry) and every recursive SCC a reviewed structural descent; (GUARD) integer / and % have a dominating non-zero test, strconv.FormatInt bases are confined to [2,36], strings.Repeat counts are non-negative; (HASH) no interface-keyed map is indexed with a dynamically typed value. NOT decided: IsValid/CanInterface guards beyond these rules, type-assertion safety, nil interfaces used as values, reflect.Set on zero Values, stack depth, lt's own panic.",
 		Rule:        commonRule,
 		Fixtures:    []string{"nf", "guard", "hash", "tab", "loop"},
@@ -269,7 +270,7 @@ func init() {
 		},
 	})
 	register(&propDef{
-		ID: "C18",
+		ID:          "C18",
 		Explanation: "Decides: (LOOP) every loop reachable from $formatNumber/$formatBase/$round/$number/$string has a recognised variant — in particular FormatNumber's mantissa scaling loop multiplies a value that is provably positive on entry (math.Abs of a value tested non-zero), the clause whose absence made $formatNumber(0, \"0.0e0\") hang; (FIN) $power, $sqrt and $round cannot return ±Inf or NaN (two-sided IsInf/IsNaN guards dominate the returns; Sqrt's argument is tested non-negative); (GUARD) FormatBase's radix test admits exactly [2,36], strconv.FormatInt's domain, and dominates the call; strings.Repeat counts in the picture renderer are non-negative. NOT decided: rounding, shortest form, picture rendering as values.",
 		Rule:        commonRule,
 		Fixtures:    []string{"fin", "guard", "loop"},
@@ -298,6 +299,196 @@ func init() {
 			g := runGUARD(c, r, "GUARD", srcFuncsIn(reach), reach)
 			r.RequireMin("GUARD partial operations under the number functions", g, 5)
 			r.Assume("runes in a DecimalFormat are valid (utf8.RuneLen >= 1), as updateDecimalFormat enforces for user-supplied options")
+		},
+	})
+}
+
+func evalRootCfg(c *Ctx) *wRootCfg {
+	return &wRootCfg{
+		Name:       "root Eval/EvalBytes/String",
+		Roots:      append(append([]*ssa.Function{}, c.REval.Roots...), c.RStr.Roots...),
+		LocalTypes: true,
+		RootParam: func(f *ssa.Function, i int) (wmask, bool) {
+			return wNonFresh, true // the Expr receiver and the caller's input document
+		},
+	}
+}
+
+func compileRootCfg(c *Ctx) *wRootCfg {
+	return &wRootCfg{
+		Name:  "root Compile/MustCompile/Parse",
+		Roots: c.RCompile.Roots,
+		RootParam: func(f *ssa.Function, i int) (wmask, bool) {
+			return wNonFresh, true
+		},
+	}
+}
+
+// pkgRegisterRootCfg: package-level RegisterExts/RegisterVars. Their only sanctioned write to
+// pre-existing memory is the global registry, inside the critical section (decided by LOCK).
+func pkgRegisterRootCfg(c *Ctx) *wRootCfg {
+	var roots []*ssa.Function
+	for _, n := range []string{"jsonata.RegisterExts", "jsonata.RegisterVars"} {
+		if f := c.W.Fn(n); f != nil {
+			roots = append(roots, f)
+		}
+	}
+	return &wRootCfg{
+		Name:  "root package-level RegisterExts/RegisterVars",
+		Roots: roots,
+		RootParam: func(f *ssa.Function, i int) (wmask, bool) {
+			return wNonFresh, true
+		},
+		AllowWrite: func(f *ssa.Function, ins ssa.Instruction) string {
+			if shortFn(f) != "jsonata.updateGlobalRegistry" {
+				return ""
+			}
+			switch x := ins.(type) {
+			case *ssa.Store:
+				if g, ok := x.Addr.(*ssa.Global); ok && g.Name() == "globalRegistry" {
+					return "the global registry is the one piece of shared state registration is meant to write; the write happens under globalRegistryMutex (decided by LOCK)"
+				}
+			case *ssa.MapUpdate:
+				if g := globalBase(x.Map); g != nil && g.Name() == "globalRegistry" {
+					return "the global registry is the one piece of shared state registration is meant to write; the update happens under globalRegistryMutex (decided by LOCK)"
+				}
+			}
+			return ""
+		},
+	}
+}
+
+// exprRegisterRootCfg: (*Expr).RegisterExts/RegisterVars may write their receiver's own registry.
+func exprRegisterRootCfg(c *Ctx) *wRootCfg {
+	var roots []*ssa.Function
+	for _, n := range []string{"jsonata.(*Expr).RegisterExts", "jsonata.(*Expr).RegisterVars"} {
+		if f := c.W.Fn(n); f != nil {
+			roots = append(roots, f)
+		}
+	}
+	return &wRootCfg{
+		Name:  "root (*Expr).RegisterExts/RegisterVars",
+		Roots: roots,
+		RootParam: func(f *ssa.Function, i int) (wmask, bool) {
+			if i == 0 {
+				return wmask{0, wND}, true // the receiver is the object the method is meant to modify
+			}
+			return wNonFresh, true
+		},
+	}
+}
+
+// transformClone: obligation (a) of C07 — the pattern of a transform is evaluated against a deep copy.
+func runTransformClone(c *Ctx, r *Result, e *wEngine, rule string) {
+	f := c.mustFn(r, "jsonata.(*transformationCallable).Call")
+	ev := c.mustFn(r, "jsonata.eval")
+	if f == nil || ev == nil {
+		return
+	}
+	n := 0
+	for _, ci := range callsIn(f) {
+		if ci.Common().StaticCallee() != ev {
+			continue
+		}
+		n++
+		m := e.concrete(f, e.mask(ci.Common().Args[1]))
+		o := Obligation{Rule: rule, Key: fmt.Sprintf("%s:pattern-context#%d", shortFn(f), n), Fn: shortFn(f), Pos: c.W.Pos(ci.Pos()), Nontrivial: true}
+		if m.obj == 0 && m.ref == 0 {
+			o.Verdict, o.Reason = Discharged, "the pattern is evaluated against a value decoded from JSON in this call (deep-fresh): the caller's object is not reachable from it"
+		} else {
+			o.Verdict, o.Reason = Finding, "the transform's pattern is evaluated against a value that is not a deep copy made in this call: matched objects would be the caller's own"
+		}
+		r.Add(o)
+	}
+	if n == 0 {
+		r.LoseAnchor("W: no eval call in transformationCallable.Call")
+	}
+}
+
+const wAssume1 = "library functions outside the module neither retain nor modify their arguments except the reviewed mutators (reflect.Value.Set*/SetMapIndex/Append*, reflect.Copy, sort.*, json.Unmarshal/Decode, strconv.Append*)"
+const wAssume2 = "values registered with RegisterVars are data, not callables or sequences returned by an earlier Eval; user extension functions are outside the analysis"
+
+func init() {
+	register(&propDef{
+		ID:          "C05",
+		Explanation: "Decides the frame condition behind repeatability for ALL programs, inputs and histories: no instruction reachable from Eval/EvalBytes/String writes memory that existed before the call — the compiled expression (AST nodes and their slices), package variables, the Expr, the shared built-in callables, or the input document. Every Store, MapUpdate, append/copy/delete and mutating library call (reflect Set*/SetMapIndex/Append*, sort.*, json decode) under the module call graph is an obligation; its target's provenance is computed interprocedurally (fresh allocations, polyvariant return summaries, call-site joins with per-dynamic-type filtering of interface receivers, field- and element-type-based load facts, evaluation-local types). With no such write, every memory cell that survives an Eval and is readable by a later one is unchanged, so an outcome is a function of (expression, input, bindings, clock, random source). CLOCK confines clock/random sources to the sanctioned ones. NOT decided: Go map iteration order effects (sanctioned by the property).",
+		Rule:        commonRule,
+		Fixtures:    []string{"w"},
+		Run: func(c *Ctx, r *Result) {
+			e := runW(c, c.G, r, "W", evalRootCfg(c))
+			r.RequireMin("W write sites examined (root Eval/EvalBytes/String)", r.Counts["W write sites examined (root Eval/EvalBytes/String)"], 300)
+			if len(e.localStr) < 8 {
+				r.LoseAnchor("W: only %d evaluation-local types found (>= 8 expected: sequence and the callable types)", len(e.localStr))
+			}
+			if ng := c.fn("jsonata.newGoCallable"); ng != nil && e.inR[ng] {
+				r.LoseAnchor("W: newGoCallable is reachable from Eval (goCallables would no longer all be shared)")
+			}
+			runCLOCK(c, r, "CLOCK")
+			runNOGO(c, r, "NOGO")
+			r.Assume(wAssume1)
+			r.Assume(wAssume2)
+		},
+	})
+	register(&propDef{
+		ID:          "C06",
+		Explanation: "A data race needs a write to a location another goroutine can reach. Decides, for all schedules: (W) under each of the roots Eval/EvalBytes/String, Compile/MustCompile/Parse and package-level RegisterExts/RegisterVars, every write targets memory allocated by the same call — except the global registry, which (LOCK) is written only with globalRegistryMutex held for writing, read only with it held, never leaves the critical section (Compile copies it entry by entry) and is not referenced under Eval; every run-time-mutable package variable has such a guard; (NOGO) the library starts no goroutine and uses no unsafe/atomics/cgo; math/rand is used only through its internally locked package-level functions. Hence concurrent calls share only read-only memory. NOT decided: races inside user extensions; (*Expr).RegisterExts concurrent with Eval on the same Expr (not promised by the property).",
+		Rule:        commonRule,
+		Fixtures:    []string{"w", "lock"},
+		Run: func(c *Ctx, r *Result) {
+			runW(c, c.G, r, "W", evalRootCfg(c))
+			runW(c, c.G, r, "W-compile", compileRootCfg(c))
+			runW(c, c.G, r, "W-register", pkgRegisterRootCfg(c))
+			runLOCK(c, r, "LOCK")
+			runNOGO(c, r, "NOGO")
+			runCLOCK(c, r, "CLOCK")
+			r.Assume(wAssume1)
+			r.Assume(wAssume2)
+		},
+	})
+	register(&propDef{
+		ID:          "C07",
+		Explanation: "Decides input immutability as a frame condition for all programs and inputs: every in-place mutation reachable from Eval (reflect.Value.Set*/SetMapIndex, element and field stores, append into spare capacity, sort.*, copy, delete, json decode destinations) targets memory allocated during the same evaluation. The transform operator has two obligations: (a) its pattern is evaluated against a deep copy made in the call (decided: the context handed to eval is deep-fresh), and (b) the SetMapIndex targets lie inside that copy — (b) does not hold: a pattern result is an arbitrary evaluation result ($$ or a variable selects the caller's own document), which is the known finding. NOT decided: that the transform's result equals the specified modified copy.",
+		Rule:        commonRule,
+		Fixtures:    []string{"w"},
+		Run: func(c *Ctx, r *Result) {
+			e := runW(c, c.G, r, "W", evalRootCfg(c))
+			runTransformClone(c, r, e, "W")
+			r.Assume(wAssume1)
+			r.Assume(wAssume2)
+		},
+	})
+	register(&propDef{
+		ID:          "C12",
+		Explanation: "Decides the scope structure for all programs: (SCOPE) evalBlock and lambdaCallable.Call evaluate in a frame freshly created by newEnvironment whose parent is the current environment / the closure's captured environment; parameters are bound in that new frame; evalLambda, evalTypedLambda, evalPartial and evalObjectTransformation capture the env and context of their definition site; the parent link is written only by newEnvironment and followed only by the write-free lookup (bind cannot reach an outer frame). (W) Callable.Call has no environment parameter, so dynamic scoping or per-call state in a shared callable would need a write to pre-existing memory, which W excludes under Eval — in particular the context item and name of a built-in call live in a per-call copy (the defect behind a.$substringBefore($$.b.c.$substringBefore(\"z\"))). NOT decided: signature matching, placeholder order, chain/compose semantics.",
+		Rule:        commonRule,
+		Fixtures:    []string{"w"},
+		Run: func(c *Ctx, r *Result) {
+			runSCOPE(c, r, "SCOPE")
+			// the W obligations that concern function values and scopes: writes to fields of
+			// callable types, of callableName, and of environments
+			e := runWFiltered(c, c.G, r, "W", evalRootCfg(c), func(s wSite) bool {
+				if strings.Contains(shortFn(s.f), "environment") {
+					return true
+				}
+				return strings.Contains(s.what, "Callable.") || strings.Contains(s.what, "callableName.") || strings.Contains(s.what, ".environment.")
+			})
+			r.RequireMin("W write sites examined (root Eval/EvalBytes/String)", r.Counts["W write sites examined (root Eval/EvalBytes/String)"], 15)
+			_ = e
+			r.Assume(wAssume1)
+			r.Assume(wAssume2)
+		},
+	})
+	register(&propDef{
+		ID:          "C20",
+		Explanation: "Decides the registry-visibility and registration-time clauses: (REG) in processExts/processVars every store into the registry map is dominated by the success edges of validName and newGoCallable/validVar applied to that entry; newEnv builds a child of baseEnv and binds $, then $now/$millis, then the expression's registry; updateRegistry only ranges over the map it is given. (LOCK) the global registry is accessed under its mutex and never escapes the critical section, so an Expr holds a per-key copy taken at Compile time and later package-level registrations cannot reach it; it is not referenced under Eval. (W) (*Expr).RegisterExts/RegisterVars write only their receiver's own registry and fresh memory; package-level registration writes only the locked global. NOT decided: the argument-conversion relation and the naming of errors (value-level).",
+		Rule:        commonRule,
+		Fixtures:    []string{"w", "lock"},
+		Run: func(c *Ctx, r *Result) {
+			runREG(c, r, "REG")
+			runLOCK(c, r, "LOCK")
+			runW(c, c.G, r, "W-register", pkgRegisterRootCfg(c))
+			runW(c, c.G, r, "W-exprregister", exprRegisterRootCfg(c))
+			r.Assume(wAssume1)
 		},
 	})
 }
